@@ -100,6 +100,53 @@ func checkC10(w *Worker) {
 				map[string]interface{}{"file": data, "fail_at": k, "chunk": chunk, "together": together})
 		}
 	})
+	// ---- a file of ~10 KB: offsets around every 4096-byte boundary, the first and last 40 bytes, stride 211
+	var big strings.Builder
+	for r := 0; r < 260; r++ {
+		big.WriteString(fmt.Sprintf("rec%03d:\n  element/%d: %d\n  # n: %d\n", r, r, r, r))
+	}
+	bigData := big.String()
+	var bigOffs []int
+	for k := 0; k <= 40; k++ {
+		bigOffs = append(bigOffs, k, len(bigData)-k)
+	}
+	for m := 4096; m < len(bigData)+4096; m += 4096 {
+		for d := -3; d <= 3; d++ {
+			if m+d <= len(bigData) {
+				bigOffs = append(bigOffs, m+d)
+			}
+		}
+	}
+	for k := 0; k < len(bigData); k += 211 {
+		bigOffs = append(bigOffs, k)
+	}
+	w.Explore("parser-read-faults-large-file", ExploreOpts{ShardDepth: 2}, func(x *Exec) {
+		k := bigOffs[x.Choose(len(bigOffs), "fault:offset")]
+		together := x.Choose(2, "fault:delivery") == 1
+		chunk := []int{0, 1000, 4096}[x.Choose(3, "env:chunk")]
+		full, fret, _ := parseWithReader(&faultReader{data: []byte(bigData), FailAt: len(bigData) + 1, Chunk: chunk})
+		if fret != nil {
+			hfail("complete large file does not parse: %v", fret)
+		}
+		fr := &faultReader{data: []byte(bigData), FailAt: k, Chunk: chunk, Together: together}
+		got, ret, pan := parseWithReader(fr)
+		x.Obs(fmt.Sprint(len(got), ret, pan))
+		x.Case(fmt.Sprint("big", k, together, chunk), fr.Failed)
+		if pan != "" {
+			x.Violate("C10|parser|panic", fmt.Sprintf("10 KB file, reader failing at byte %d: panic %s", k, pan), nil)
+			return
+		}
+		if ret == nil && got != full {
+			x.Violate("C10|parser|success-on-a-prefix|large-file", fmt.Sprintf("file of %d bytes, reader failing at byte %d (chunk %d, error with last bytes: %v): the parser returned nil after delivering %d bytes of callbacks instead of %d", len(bigData), k, chunk, together, len(got), len(full)),
+				map[string]interface{}{"fail_at": k, "chunk": chunk, "together": together, "file_bytes": len(bigData)})
+		}
+		if i := strings.Index(got, "ERR("); i >= 0 {
+			got = got[:i] // a truncated last line may be reported as malformed: that is still an error
+		}
+		if ret != nil && !strings.HasPrefix(full, got) {
+			x.Violate("C10|parser|garbled-records-before-failure", fmt.Sprintf("reader failing at byte %d: the records delivered before the failure are not a prefix of the complete file's records", k), nil)
+		}
+	})
 	// ---- command level through the CmdUtils seam
 	w.Explore("command-read-faults", ExploreOpts{ShardDepth: 3}, func(x *Exec) {
 		ci := x.Choose(len(c10Cmds), "input:command")
